@@ -210,13 +210,18 @@ def calculate_first_sets(grammar):
 
             # Update first sets:
             for beta in rule.symbols:
+                if first[beta] - first[rule.name]:
+                    first[rule.name] |= first[beta]
+                    some_change = True
                 if not nullable[beta]:
-                    if first[beta] - first[rule.name]:
-                        first[rule.name] |= first[beta]
-                        some_change = True
                     break
         if not some_change:
             break
+
+    # Mark nullable symbols by including EPS in their first set:
+    for nt in grammar.nonterminals:
+        if nullable[nt]:
+            first[nt].add(EPS)
     return first
 
 
@@ -255,11 +260,16 @@ class LrParserBuilder:
                 worklist.append(itm)
 
         def first2(itm):
-            # When using the first sets, create a copy:
-            f = set(self.first[itm.NextNext])
-            if EPS in f:
-                f.discard(EPS)
+            # First set of the symbols after the next symbol, followed
+            # by the look ahead of the item:
+            f = set()
+            for symbol in itm.production.symbols[itm.dotpos + 1 :]:
+                f |= self.first[symbol]
+                if EPS not in self.first[symbol]:
+                    break
+            else:
                 f.add(itm.look_ahead)
+            f.discard(EPS)
             return f
 
         # Start of algorithm:
